@@ -219,7 +219,6 @@ def run_cfg(ctx, fx):
         ctx.viol("R11.3", "plain-loop", v["msg"], fn=lf["def"], site=lf["loc"], trace=v["trace"])
     if not viols:
         ctx.require(len(nfa.edges_labelled(n, "bool:upvar%d" % f_idx[0])) >= 2, "R11.3", "plain-loop", "the loop never branches on fail_on_timeout", fn=lf["def"], site=lf["loc"], detail={"product_states": ps})
-    run_loops(ctx, fx, "R11.3", {"L3", "L6", "L7"})
     # R11.2 wrapper
     if wraps:
         wdef = wraps[0][1]["callee"]
